@@ -114,9 +114,10 @@ def guard_text(test: ast.AST, pol: bool) -> str:
     return src(test) if pol else f"not ({src(test)})"
 
 
-def guards_at(m: Module, node: ast.AST, stop: ast.AST | None = None) -> list[tuple[ast.AST, bool]]:
+def guards_at(m: Module, node: ast.AST, stop: ast.AST | None = None, silent: bool = False) -> list[tuple[ast.AST, bool]]:
     """All (atomic test, polarity) facts that hold whenever `node` is reached, looking only
-    at the enclosing function (or up to `stop`)."""
+    at the enclosing function (or up to `stop`).  silent=True leaves out the facts established by `if c: raise ...`
+    and `assert`: the node is not *silently* skipped when such a guard fails."""
     facts: list[tuple[ast.AST, bool]] = []
     child = node
     for anc in m.ancestors(node):
@@ -149,22 +150,42 @@ def guards_at(m: Module, node: ast.AST, stop: ast.AST | None = None) -> list[tup
             if _in_list(child, lst):
                 idx = next(i for i, s in enumerate(lst) if s is child)
                 for prev in lst[:idx]:
-                    facts += _early_exit_facts(prev)
+                    facts += _early_exit_facts(prev, silent)
         if anc is stop or isinstance(anc, (ast.FunctionDef, ast.AsyncFunctionDef, ast.Lambda)):
             break
         child = anc
     return facts
 
 
-def _early_exit_facts(st: ast.stmt) -> list[tuple[ast.AST, bool]]:
+def _always_raises(stmts) -> bool:
+    """every way through the block ends in a raise (a loud exit)"""
+    if not stmts:
+        return False
+    last = stmts[-1]
+    if isinstance(last, ast.Raise):
+        return True
+    if isinstance(last, ast.If):
+        return bool(last.orelse) and _always_raises(last.body) and _always_raises(last.orelse)
+    return False
+
+
+def _early_exit_facts(st: ast.stmt, silent: bool = False) -> list[tuple[ast.AST, bool]]:
     if isinstance(st, ast.If):
         b, o = always_exits(st.body), bool(st.orelse) and always_exits(st.orelse)
         if b and not o:
-            return split_cond(st.test, False)
+            if silent and _always_raises(st.body):
+                return []
+            # `if a: exit elif b: exit` establishes not a and not b
+            rest = []
+            for x in st.orelse:
+                rest += _early_exit_facts(x, silent)
+            return split_cond(st.test, False) + rest
         if o and not b:
+            if silent and _always_raises(st.orelse):
+                return []
             return split_cond(st.test, True)
     elif isinstance(st, ast.Assert):
-        return split_cond(st.test, True)
+        return [] if silent else split_cond(st.test, True)
     return []
 
 
